@@ -422,16 +422,24 @@ func genTable(cfg Config, emit0 func(string, bool, []string)) {
 				g.add("next 1 s%d -1", g.nsnap-1)
 				g.add("cclose 2")
 				g.add("gcidle")
-				// the survivor, driven through a write transaction on its own table that is aborted
+				// the survivor, driven through a write transaction on its own table that is aborted (something
+				// was committed since its last refresh, so that Next does look at the transaction)
+				g.add("wtxn m")
+				g.add("ins m %s 33 0 - - 0 4", hx([]byte("k3")))
+				g.add("commit")
+				g.nsnap++
 				g.add("wtxn m")
 				g.add("ins m %s 9 0 - - 0 9", hx([]byte("k9")))
+				if r.IntN(2) == 0 {
+					g.add("ins m %s 8 0 - - 0 8", hx([]byte("k8")))
+				}
 				g.add("next 1 w -1")
 				g.add("abort")
 				g.add("wtxn m")
 				g.add("del m %s", hx([]byte("k1")))
 				g.add("commit")
 				g.nsnap++
-				g.add("gcidle")
+				g.add("gc") // a collection run before the survivor has been handed the deletion keeps it
 				g.add("glen - m")
 				g.add("rtxn")
 				g.nsnap++
@@ -1973,6 +1981,38 @@ func (e *tableExec) do(o *Out, f []string) string {
 				} else {
 					e.txnRef.a = e.committed.a
 				}
+			}
+		}
+		// what this commit publishes, read back through the prefix index of table m, is what its
+		// transaction built on top of the committed state — not the leftovers of an earlier, aborted
+		// transaction and not a state older than the committed one
+		if strings.Contains(e.wtables, "m") {
+			want := map[string]bool{}
+			for id, ro := range e.txnRef.m.objs {
+				if len(ro.o.Pfxs) > 0 {
+					want[id] = true
+				}
+			}
+			got := map[string]bool{}
+			for obj := range e.m.Prefix(rtx, tLpmIndex.Query([]byte{0, 0}, 0)) {
+				got[obj.ID] = true
+			}
+			var lost, stale []string
+			for id := range want {
+				if !got[id] {
+					lost = append(lost, hx([]byte(id)))
+				}
+			}
+			for id := range got {
+				if !want[id] {
+					stale = append(stale, hx([]byte(id)))
+				}
+			}
+			if len(lost)+len(stale) > 0 {
+				sort.Strings(lost)
+				sort.Strings(stale)
+				o.Fail("C05", "commit-published-a-stale-index-state", map[string]string{"after_an_aborted_txn": strconv.FormatBool(e.aborts > 0)},
+					fmt.Sprintf("after this commit the prefix index of table m misses committed objects %v and holds objects %v that no committed transaction wrote (%d transactions were aborted before)", lost, stale, e.aborts))
 			}
 		}
 		e.committed = e.txnRef
